@@ -82,9 +82,7 @@ func init() {
 		if os.Geteuid() == 0 && tk[0] == "unwritable" {
 			for _, d := range []string{s.root, filepath.Dir(s.root)} {
 				if st, err := os.Stat(d); err == nil && st.Mode().Perm()&0011 != 0011 {
-					if os.Chmod(d, st.Mode().Perm()|0011) == nil {
-						restore = append(restore, saved{d, st.Mode().Perm()})
-					}
+					os.Chmod(d, st.Mode().Perm()|0011) // (left searchable: see asNobody)
 				}
 			}
 			dropped = syscall.Seteuid(65534) == nil
